@@ -154,3 +154,68 @@ fn f2_new_cyclic_with_panicking_automatic_collection_touches_no_value() {
     let _ = FINALIZED_WHILE_HELD.with(|c| c.get());
     let _ = DROPS.with(|c| c.get());
 }
+
+// ---- F4 (C10): re-entrant use of a Cleaner from inside one of its own cleaning actions --------------------------
+
+use rust_cc::cleaners::{Cleanable, Cleaner};
+use std::rc::Rc;
+
+struct Owner {
+    cleaner: Cleaner,
+}
+
+unsafe impl Trace for Owner {
+    fn trace(&self, _: &mut Context<'_>) {}
+}
+
+impl Finalize for Owner {}
+
+#[test]
+fn f4_cleaning_actions_reentering_their_own_cleaner() {
+    let _ = config(|c| c.set_auto_collect(false));
+
+    // (a) an action calls clean() on a sibling Cleanable of the same Cleaner: the sibling's action runs at that
+    //     first call, and exactly once overall
+    {
+        let owner = Cc::new(Owner { cleaner: Cleaner::new() });
+        let sibling_runs = Rc::new(Cell::new(0u32));
+        let sibling: Rc<RefCell<Option<Cleanable>>> = Rc::new(RefCell::new(None));
+        let seen_inside = Rc::new(Cell::new(u32::MAX));
+        let (sr, sb, si) = (sibling_runs.clone(), sibling.clone(), seen_inside.clone());
+        let first = owner.cleaner.register(move || {
+            if let Some(s) = sb.borrow().as_ref() {
+                s.clean();
+            }
+            si.set(sr.get());
+        });
+        let sr2 = sibling_runs.clone();
+        *sibling.borrow_mut() = Some(owner.cleaner.register(move || sr2.set(sr2.get() + 1)));
+        first.clean();
+        assert_eq!(1, seen_inside.get(), "clean() called from inside a sibling action did not run the action");
+        sibling.borrow().as_ref().unwrap().clean();
+        assert_eq!(1, sibling_runs.get());
+        drop(owner);
+        assert_eq!(1, sibling_runs.get());
+    }
+
+    // (b) an action run by clean() releases the last Cc of the Cleaner's owner: the remaining actions have run by the
+    //     time the drop of the owner (hence of the Cleaner) returns, i.e. still inside the releasing action
+    {
+        let owner = Cc::new(Owner { cleaner: Cleaner::new() });
+        let other_runs = Rc::new(Cell::new(0u32));
+        let seen_after_owner_drop = Rc::new(Cell::new(u32::MAX));
+        let slot: Rc<RefCell<Option<Cc<Owner>>>> = Rc::new(RefCell::new(None));
+        let (or1, sl, sa) = (other_runs.clone(), slot.clone(), seen_after_owner_drop.clone());
+        let releasing = owner.cleaner.register(move || {
+            let last = sl.borrow_mut().take();
+            drop(last); // drops the owner and its Cleaner
+            sa.set(or1.get());
+        });
+        let or2 = other_runs.clone();
+        let _other = owner.cleaner.register(move || or2.set(or2.get() + 1));
+        *slot.borrow_mut() = Some(owner);
+        releasing.clean();
+        assert_eq!(1, seen_after_owner_drop.get(), "the Cleaner's drop returned before its remaining action had run");
+        assert_eq!(1, other_runs.get());
+    }
+}
